@@ -31,6 +31,7 @@ def fwd (name : String) (len : Nat) : List Nuc := (List.range len).map fun k => 
 inductive Opt
   | noOpt
   | nt (n : Nat)
+  | other (text : String)   -- a value the PIL/DES formats cannot express (e.g. a fractional bound)
 deriving Repr, DecidableEq, BEq
 
 structure StructD where
